@@ -60,7 +60,7 @@ fn body_make_move_safety(turn: u8, eksq: u8) {
     let r = b.move_new(to_move(m));
     assert!(r.is_some());
     kani::cover!(s.half == u16::MAX);
-    kani::cover!(s.full == u16::MAX && s.turn == 1);
+    kani::cover!(s.full == u16::MAX);
 }
 macro_rules! safety_ek {
     ($name:ident, $turn:expr, $eksq:expr) => {
